@@ -10,7 +10,7 @@ use std::path::Path;
 
 const HOUR: i128 = 3_600_000_000_000;
 /// offsets of a temp file's mtime relative to (now - 1h): negative = older than the limit
-const DELTAS: &[i128] = &[-HOUR, -1_000_000_000, -1, 0, 1, 1_000_000_000, 59 * 60 * 1_000_000_000];
+const DELTAS: &[i128] = &[-HOUR, -1_000_000_000, -1, 0, 1, 1_000_000_000, 59 * 60 * 1_000_000_000, 2 * HOUR, 3 * HOUR + 1];
 
 #[derive(Clone, Debug, Serialize, Deserialize)]
 pub struct Case {
@@ -36,8 +36,8 @@ fn gen_case() -> impl Strategy<Value = Case> {
         prop::collection::vec((0u8..6, 0u8..3), 0..3),
         any::<bool>(),
         any::<bool>(),
-        prop::collection::vec(0u8..7, 0..6),
-        prop::option::weighted(0.5, (0u8..7, prop::collection::vec(0u8..7, 0..4))),
+        prop::collection::vec(0u8..9, 0..6),
+        prop::option::weighted(0.5, (0u8..9, prop::collection::vec(0u8..9, 0..4))),
         any::<bool>(),
     )
         .prop_map(|(files, capsel, sharded, dotfiles, dotdir, nested, temps, tempdir, put)| {
@@ -221,6 +221,9 @@ pub fn run(ctx: &Ctx) -> Report {
             }
             if c.tempdir.is_some() {
                 rep.label("subdirectory inside .kismet_temp");
+            }
+            if c.temps.iter().any(|d| *d >= 7) {
+                rep.label("temp file dated in the future (clock skew)");
             }
             if let Ok((true, _)) = r {
                 rep.label("evicted");
